@@ -262,7 +262,7 @@ def run(out: Outcome) -> None:
                 expect.append(("IncrementalKSTest", float(r.statistic), float(r.p_value), rep, False))
         out.case({"incremental": True, "n": n, "window": w, "steps": len(stream), "value_type": vt, "h": hash(tuple(ref + stream)) & 0xFFFFFF})
     # a second fit() on a running detector (no reset): the reference is replaced, the window keeps sliding
-    for _ in range(20 if thorough else 6):
+    for _ in range(30 if thorough else 14):
         w = rng.choice([2, 4, 6, 8])
         ref1, ref2 = sample(rng, rng.choice([6, 8, 12])), sample(rng, rng.choice([5, 9, 10, 15]))
         stream = sample(rng, 5 * w + 8)
